@@ -890,9 +890,23 @@ struct ArraysWorld : World {
 				bool astext = (op.c & 1) != 0;
 				value v; if (astext) v.set('s', &cs); else v.set(TypeVector, &vec);
 				array *t; { Sut s; t = new array(); }
-				int rc; { Sut s(failn); rc = t->set(v); fired = g.fired; }
-				std::vector<uint8_t> want; if (astext) { want.assign(text.begin(), text.end()); want.push_back(0); } else want = vals;
-				log.ev("X_EPISODE set(%s of %zu bytes)%s -> %d", astext ? "text" : "vector", want.size(), fired ? " allocfail" : "", rc);
+				// the content comes from a value, from a convertable (offering a generic vector, a character vector or a text), or is the buffer of one of the arrays
+				struct SrcConv : public convertable { int mode; struct iovec vec; const char *str;
+					int convert(type_t ty, void *ptr) override { Harness hs;
+						if (mode == 0 && ty == (type_t) TypeVector) { if (ptr) *(struct iovec *) ptr = vec; return TypeVector; }
+						if (mode == 1 && ty == (type_t) MPT_type_toVector('c')) { if (ptr) *(struct iovec *) ptr = vec; return (int) ty; }
+						if (mode == 2 && ty == 's') { if (ptr) *(const char **) ptr = str; return 's'; }
+						return BadType; } } sc;
+				unsigned how = (unsigned) (op.c >> 2) & 3;
+				sc.mode = astext ? 2 : (int) ((op.c >> 4) & 1); sc.vec = vec; sc.str = cs;
+				int rc; std::vector<uint8_t> want; if (astext) { want.assign(text.begin(), text.end()); want.push_back(0); } else want = vals;
+				if (how == 1 || how == 2) { Sut s(failn); rc = t->set(sc); fired = g.fired; st.hit("probe:cxx_array_set_convertable"); }
+				else if (how == 3) { const array::content *d0 = A[h]->data();
+					reference<buffer> rb; if (d0) { Sut s; const_cast<array::content *>(d0)->addref(); rb.set_instance(const_cast<array::content *>(d0)); }
+					bool ok; { Sut s(failn); ok = t->set(rb); fired = g.fired; } { Sut s; rb.set_instance(0); }
+					rc = ok ? 0 : -1; want = M3[h]; astext = false; st.hit("probe:cxx_array_set_buffer_reference"); }
+				else { Sut s(failn); rc = t->set(v); fired = g.fired; }
+				log.ev("X_EPISODE set(%s of %zu bytes, %s)%s -> %d", astext ? "text" : "vector", want.size(), how == 3 ? "buffer reference" : how ? "convertable" : "value", fired ? " allocfail" : "", rc);
 				auto reads = [&](const array *a, const std::vector<uint8_t> &w, const char *what) {
 					const array::content *d = a->data(); size_t n = d ? d->length() : 0; const uint8_t *b = d ? (const uint8_t *) d->data() : 0;
 					if (n != w.size() || (n && memcmp(b, w.data(), n))) { size_t k = 0; while (k < n && k < w.size() && b[k] == w[k]) ++k;
